@@ -30,10 +30,12 @@ Lemma b64_narrowing_refuted :
   b64_decode true true false [0x41; 0x41; 0x41; 0x41; 0x100; 0x21; 0x21] = None.
 Proof. vm_compute. repeat split; reflexivity. Qed.
 
-(** F26: byte 0xFF indexes past base64Inverse (255 entries); the repaired table rejects it *)
+(** F26 (repaired in /repo, ed2dbdc): base64Inverse now has an entry for every byte (BASELENGTH = 256, regenerated
+    from Base64.cpp on every run), so byte 0xFF is looked up inside the table and rejected whatever the defect switch
+    says; with the old 255-entry table the faithful model read past it (that statement was [b64_table_refuted]). *)
 Lemma b64_table_refuted :
-  N.of_nat (length base64Inverse) = 255 /\
-  b64_decode true false false [0xFF; 0x41; 0x41; 0x41] = Some ([0; 0; 0], [0xFF; 0x41; 0x41; 0x41]) /\
+  N.of_nat (length base64Inverse) = 256 /\
+  b64_decode true false false [0xFF; 0x41; 0x41; 0x41] = None /\
   b64_lex [0xFF; 0x41; 0x41; 0x41] = false /\ b64_decode true false true [0xFF; 0x41; 0x41; 0x41] = None.
 Proof. vm_compute. repeat split; reflexivity. Qed.
 
